@@ -34,6 +34,24 @@ impl Update for Blake2bMac512 {
 impl OutputSizeUser for Blake2bMac512 {
     type OutputSize = U64;
 }
+// the real type is a MAC: `digest::Mac` (update / finalize().into_bytes() / chain_update) comes with the marker + key size
+impl digest::MacMarker for Blake2bMac512 {}
+impl digest::crypto_common::KeySizeUser for Blake2bMac512 {
+    type KeySize = U64;
+}
+impl digest::KeyInit for Blake2bMac512 {
+    fn new(key: &digest::Key<Self>) -> Self {
+        Self::new_with_salt_and_personal(key.as_slice(), &[], &[]).expect("64-byte key")
+    }
+    fn new_from_slice(key: &[u8]) -> Result<Self, InvalidLength> {
+        Self::new_with_salt_and_personal(key, &[], &[])
+    }
+}
+impl core::fmt::Debug for Blake2bMac512 {
+    fn fmt(&self, f: &mut core::fmt::Formatter<'_>) -> core::fmt::Result {
+        f.write_str("Blake2bMac512 { ... }")
+    }
+}
 impl FixedOutput for Blake2bMac512 {
     fn finalize_into(self, out: &mut GenericArray<u8, U64>) {
         with(|c| {
